@@ -1,10 +1,14 @@
 #!/bin/sh
-# run_seeded.sh <id> <prop> [extra verif args] : applies /verif/seeded/<id>/patch.diff to /repo, runs the quick check of <prop>, and undoes it.
+# run_seeded.sh <id> <prop> [extra verif args] : runs the quick check of <prop> against go-cty with /verif/seeded/<id>/patch.diff applied.
+# The patch is applied to a scratch worktree of /repo's HEAD (removed afterwards) that the driver is pointed at with VERIF_REPO,
+# which is the same as `git -C /repo apply` + run + `git -C /repo checkout -- .` but never disturbs /repo or sweeps reading it.
 ID=$1; P=$2; shift; shift
 cd /verif
-git -C /repo diff --quiet || { echo "/repo is dirty"; exit 2; }
-git -C /repo apply /verif/seeded/$ID/patch.diff || exit 2
-trap 'git -C /repo checkout -- . ' EXIT
-./bin/verif check $P --tier quick "$@" > /tmp/seeded_$ID.$P.log 2>&1; RC=$?
-V=$(grep -c "^VIOLATION" /tmp/seeded_$ID.$P.log)
-echo "SEEDED $ID on $P: exit=$RC violations=$V $(grep -m1 -A1 '^VIOLATION' /tmp/seeded_$ID.$P.log | tail -1 | cut -c1-160)"
+WT=/tmp/wt-seeded.$ID.$P.$$
+git -C /repo worktree add --detach $WT HEAD >/dev/null 2>&1 || { echo "cannot create worktree"; exit 2; }
+trap 'git -C /repo worktree remove --force $WT >/dev/null 2>&1' EXIT
+git -C $WT apply /verif/seeded/$ID/patch.diff || { echo "SEEDED $ID: patch does not apply"; exit 2; }
+LOG=/tmp/seeded_$ID.$P.log
+VERIF_REPO=$WT VERIF_EVIDENCE_DIR=/tmp/seeded_evidence ./bin/verif check $P --tier quick "$@" > $LOG 2>&1; RC=$?
+V=$(grep -c "^VIOLATION" $LOG)
+echo "SEEDED $ID on $P: exit=$RC violations=$V $(grep -A1 '^VIOLATION' $LOG | grep -v '^VIOLATION' | grep -v '^--' | cut -c1-150 | sort | uniq -c | sort -rn | head -4 | tr '\n' ';')"
